@@ -1,6 +1,6 @@
 import Jp.Gen.Rs.ValidateBytes
 /-
-  Jp.Tie.Validate — `validate_bytes` regenerated from `src/pointer.rs` (an index-driven `while` loop with explicit
+  Jp.Tie.ValidateBytes — `validate_bytes` regenerated from `src/pointer.rs` (an index-driven `while` loop with explicit
   fuel) equals the hand-written model `validateBytes` (a recursion over the remaining bytes), for all inputs.
 -/
 namespace Jp.Tie
